@@ -1,22 +1,61 @@
-"""C02 - connection lifecycle is well-formed (sequential fragment).
+"""C02 - connection lifecycle is well-formed (sequential fragment + explicit schedules).
 
 A REAL Crazyflie (real constructor: real Param, Log, Memory, PlatformService, dispatcher, TOC fetchers, SyncCrazyflie)
 is connected to a device simulator written in the contract: `cflib.crtp.get_link_driver` is replaced by a stub that
 hands out a recording link; every packet the library sends is answered by the simulator according to the CRTP
-services (protocol version, log reset + log TOC, memory count, parameter TOC, parameter read) and delivered through
-the real dispatcher loop.  Threads are sequential: Thread.start is recorded and the parameter-updater loop is run by
-the contract until it blocks (see contracts/C04.py).
+services (protocol version, log reset + log TOC, memory count / details / 1-wire content, parameter TOC, extended
+parameter types, parameter read) and delivered through the real dispatcher loop.  Threads are sequential: Thread.start
+is recorded and the queue-serving threads (parameter updater, extended-type fetcher) are run by the contract until they
+block (see contracts/C04.py); a transmission by such a thread and the device's answer are separate steps.
 
 Decided: event order connection_requested -> link_established -> connected -> fully_connected with `connected` only
-after both tables are complete and `fully_connected` only after every parameter has a value; failure / loss /
-close at every point k of the exchange produce exactly the notifications the property prescribes (connection_failed
-XOR disconnected+connection_lost, one disconnected per close_link, nothing of the attempt after its first
-disconnected); the same object connects again afterwards (also from inside a connection_lost callback); driver
-lookup failures; blocking SyncCrazyflie open/close return or raise.
+after both tables (and memories, extended types) are complete and `fully_connected` only after every parameter has a
+value; failure / loss / close at every point k of the exchange produce exactly the notifications the property
+prescribes (connection_failed XOR disconnected+connection_lost, one disconnected per close_link - in EVERY state of the
+object -, nothing of the attempt after its first disconnected); the same object connects again afterwards (also from
+inside any notification that ends an attempt); driver lookup failures; the REAL blocking SyncCrazyflie open / close /
+wait_for_params / with-statement calls return or raise, over two sessions on one object.
 
-NOT decidable with this technique and not claimed: bounded-time disconnect, absence of deadlock or dead threads under
-real thread interleavings (dispatcher / parameter / latency / timer / user threads), link errors reported from the
-sending thread while the dispatcher is mid-callback.  The MANIFEST entry states that the claim is this fragment.
+Thread interleavings are not explored exhaustively; they are covered by EXPLICIT SCHEDULES, each a contract of its own
+in which a stub call runs the other thread's action at that point:
+ * the user thread blocked in a SyncCrazyflie wait while the dispatcher / parameter threads run (class SyncWorld: the
+   module's `Event` is a stub whose wait() is the schedule), with a link error / an application close_link after the
+   k-th packet exchanged meanwhile;
+ * a link error reported from the SENDING thread (driver calls the error callback inside send_packet with the send lock
+   held): from open_link, from a dispatcher callback, from the parameter thread, from close_link's zero set-point, from
+   a memory read / write;
+ * the latency-ping thread (World._ping_model): joined through the real Latency.stop / _ping_thread, asleep or blocked
+   in ping();
+ * the other thread acting in the middle of a dispatcher callback (at the log statement that opens the library
+   callback of each stage);
+ * a second error report arriving while the first is delivered; an error between `is_link_open()` and `Event()` of
+   SyncCrazyflie.close_link; the parameter thread blocked in wait_lock.acquire().
+
+FINDINGS on the unchanged tree (contracts kept with thorough_only=True so that `./vcheck C02` stays green; each fails
+with a native replay in `./vcheck C02 thorough`):
+ F1 sync.open-under-link-error.after-first-packet, sync.open-under-close-link: SyncCrazyflie.open_link never returns when
+    the attempt ends with `disconnected` (link error after the first packet and before connected, or a close_link by the
+    application): nobody sets the event it waits on.
+ F2 sync.close-while-the-link-fails.before-the-event-exists: close_link never returns when the link error is handled
+    between its is_link_open() test and the creation of the event (the callbacks are gone by then).
+ F3 link-error.from-the-sending-thread-while-ping-waits: the driver reports "cannot send" from inside send_packet (send
+    lock held) while the latency-ping thread waits for that lock; the disconnect joins the ping thread: deadlock.
+ F4 link-error.from-the-sending-thread-during-memory-write: the same report inside Memory.write (which holds
+    _write_requests_lock) self-deadlocks in Memory._disconnected.
+ F5 interrupted-extended.*.request-in-flight: an attempt interrupted while the extended-type request is in flight leaves
+    that fetcher's packet callback registered; the next attempt gets `connected` twice.
+ F6 mid-callback.*.next-stage-race: a disconnect on another thread between "stage complete" and the signalling of the next
+    stage: connected / fully_connected after disconnected, or a fetcher started after the disconnect (`connected` twice in
+    the next attempt).
+ F7 reconnect-from-any-callback.new-attempt-fails-before-its-first-packet: open_link from inside a notification of
+    _link_error_cb / close_link has its INITIALIZED state overwritten by DISCONNECTED; a failure of the new link before
+    its first packet is reported as disconnected_link_error, never connection_failed.
+ F8 link-error.reported-by-two-threads-at-once: two overlapping reports give two disconnected + two connection_lost and a
+    ValueError (TocFetcher._disconnected removes itself twice) escapes into the reporting thread.
+
+NOT decidable with this technique and not claimed: bounded-time disconnect as a time bound; absence of deadlock under
+ALL interleavings (only the schedules above); symbolic numbers of parameters / memories (the exchange is driven by the
+contract-side device, bounded to 1-2 parameters, 0-2 memories).  The MANIFEST entry states that the claim is this fragment.
 """
 from pyvc.api import contract
 
@@ -24,6 +63,8 @@ CF = 'cflib.crazyflie'
 SCF = 'cflib.crazyflie.syncCrazyflie'
 STK = 'cflib.crtp.crtpstack'
 PRM = 'cflib.crazyflie.param'
+LS = 'cflib.crazyflie.link_statistics'
+MEMP = 'cflib.crazyflie.mem'
 
 EVENTS = ['connection_requested', 'link_established', 'connected', 'fully_connected', 'disconnected', 'connection_lost',
           'connection_failed', 'disconnected_link_error']
@@ -42,11 +83,20 @@ URI = 'radio://0/80/2M'
 class World:
     """real Crazyflie + device simulator (contract-side, back-end agnostic)"""
 
-    def __init__(self, c, n_params=1, needs_resending=False):
+    def __init__(self, c, n_params=1, needs_resending=False, extended=False, n_mems=0, onewire=False):
         self.c = c
+        self.onewire = onewire              # the first memory is a 1-wire deck memory: its content is read before `connected`
+        self.extended = extended            # the parameters carry extended type information (fetched before `connected`)
+        self.n_mems = n_mems                # memories the device reports (type I2C, then LOCO ...; no 1-wire)
         c.virtual_time()
         if needs_resending:
             c.use_stubs(CF, ['Timer'])      # retry timers are recorded; the contract decides when one fires
+        self.in_dispatch = False            # the dispatcher thread is running (inside `deliver`)
+        self.send_fault = None              # (n, action): the n-th send_packet on the current link runs `action` on the sending thread
+        self.n_sent = 0
+        self._ping_model()
+        # the dispatcher thread idles (sleep, look again) while there is no link: the scripted events of a `deliver` are over
+        c.patch(CF + ':time', c.ext('cf_time', returns={'sleep': c.raiser('StopLoop')}))
         self.cf = c.new(CF + ':Crazyflie')
         self.n_params = n_params
         self.links = []
@@ -57,6 +107,19 @@ class World:
         self.upd = c.getfield(param, 'param_updater')
         c.set(self.upd, 'request_queue', c.queue('rq'))
         c.set(self.upd, 'wait_lock', c.lock('wait_lock'))
+        if extended:
+            # the extended-type fetcher threads are created during the sequence: their queue and lock are the sequential models
+            nq = []
+
+            def mk_queue(*_a):
+                nq.append(1)
+                return c.queue('etf_q%d' % len(nq))
+
+            def mk_lock(*_a):
+                nq.append(1)
+                return c.lock('etf_lock%d' % len(nq))
+            c.patch(PRM + ':Queue', c.ext('Queue', returns={'()': mk_queue}))
+            c.patch(PRM + ':Lock', c.ext('Lock', returns={'()': mk_lock}))
         for ev in EVENTS:
             c.invoke((c.getfield(self.cf, ev), 'add_callback'), c.ext('ev.' + ev))
         c.let('cf', self.cf)
@@ -66,12 +129,68 @@ class World:
                 return None
             if self.driver_mode == 'raise':
                 return c.raiser('OSError', 'dongle not found')()
-            ln = c.ext('link%d' % len(self.links), attrs={'needs_resending': needs_resending})
+            ln = c.ext('link%d' % len(self.links), attrs={'needs_resending': needs_resending}, returns={'send_packet': self._on_send})
             self.links.append(ln)
             self.answered = 0
+            self.n_sent = 0
             return ln
         c.patch('cflib.crtp:get_link_driver', c.ext('get_link_driver', returns={'()': lookup}))
         c.reset_trace()
+
+    def _on_send(self, _i, args, _k):
+        """link.send_packet of the driver; a driver that cannot transmit reports the error from the sending thread"""
+        n = self.n_sent
+        self.n_sent += 1
+        if self.send_fault is not None and n == self.send_fault[0]:
+            action = self.send_fault[1]
+            self.send_fault = None
+            action()
+            return False
+        return True
+
+    def _ping_model(self):
+        """the latency-ping thread (cflib.crazyflie.link_statistics creates it with Thread(target=...)) as an explicit
+        schedule: start() only records; while it is alive the thread is either asleep between two pings (default) or
+        blocked inside ping() (`ping_blocked_in_send`: it waits for the send lock); join() lets it run on from
+        there through the REAL thread function until that returns.  A thread function that keeps going round its loop
+        (three more sleeps) never ends: the join - and with it the disconnect - blocks for ever (Deadlock)."""
+        c = self.c
+        self.pings = []                     # one dict per created ping thread
+        self.ping_blocked_in_send = False
+        st = {'sleeps': 0}
+
+        def sleep(_i, args, _k):
+            st['sleeps'] += 1
+            if st['sleeps'] > 3:
+                return c.raiser('Deadlock', 'the latency-ping thread never stops: join() blocks for ever')()
+            return None
+        c.patch(LS + ':time', c.ext('ls_time', returns={'sleep': sleep, 'time': lambda *_a: 1000.0}))
+
+        def make_thread(_i, args, kwargs):
+            t = {'state': 'new', 'target': kwargs['target']}
+            self.pings.append(t)
+
+            def start(*_a):
+                if t['state'] != 'new':
+                    return c.raiser('RuntimeError', 'threads can only be started once')()
+                t['state'] = 'alive'
+                return None
+
+            def join(*_a):
+                if t['state'] == 'new':
+                    return c.raiser('RuntimeError', 'cannot join thread before it is started')()
+                if t['state'] == 'alive':
+                    st['sleeps'] = 0
+                    if self.ping_blocked_in_send:
+                        c.invoke((c.getfield(c.getfield(self.cf, 'link_statistics'), 'latency'), 'ping'))
+                    c.invoke(t['target'])
+                    t['state'] = 'ended'
+                return None
+            return c.ext('pingthread%d' % (len(self.pings) - 1), returns={'start': start, 'join': join, 'is_alive': lambda *_a: t['state'] == 'alive'})
+        c.patch(LS + ':Thread', c.ext('PingThread', returns={'()': make_thread}))
+
+    def pings_alive(self):
+        return len([t for t in self.pings if t['state'] == 'alive'])
 
     # -- the device
     def reply_for(self, port, channel, data):
@@ -85,12 +204,27 @@ class World:
         if port == 5 and channel == 0 and data[:1] == [3]:
             return 5, 0, bytes([3, 0, 0, 0x11, 0x22, 0x33, 0x44, 16, 128])
         if port == 4 and channel == 0 and data[:1] == [1]:
-            return 4, 0, bytes([1, 0])
+            return 4, 0, bytes([1, self.n_mems])
+        if port == 4 and channel == 0 and data[:1] == [2]:
+            # memory details: id, type (0 = I2C, 0x11 = LOCO, ...), size, 8 address bytes
+            mtype = [1 if self.onewire else 0, 0x11, 0x10, 0x12][data[1] % 4]
+            return 4, 0, bytes([2, data[1], mtype, 0, 4, 0, 0]) + bytes(8)
+        if port == 4 and channel == 1 and len(data) == 6:
+            # memory read (id, address, length): a valid 1-wire image with an empty element area
+            import binascii
+            import struct
+            header = struct.pack('<BIBB', 0xEB, 0, 0xBC, 1)
+            header += bytes([binascii.crc32(header) & 0xff])
+            image = header + bytes([0, 0, binascii.crc32(bytes([0, 0])) & 0xff]) + bytes(101)
+            addr = data[1] | (data[2] << 8) | (data[3] << 16) | (data[4] << 24)
+            return 4, 1, bytes(data[:5]) + bytes([0]) + image[addr:addr + data[5]]
         if port == 2 and channel == 0 and data[:1] == [3]:
             return 2, 0, bytes([3, self.n_params, 0, 0xAA, 0xBB, 0xCC, 0xDD])
         if port == 2 and channel == 0 and data[:1] == [2]:
             idx = data[1] | (data[2] << 8)
-            return 2, 0, bytes([2, data[1], data[2], 0x08]) + b'grp\x00' + ('p%d' % idx).encode() + b'\x00'
+            return 2, 0, bytes([2, data[1], data[2], 0x18 if self.extended else 0x08]) + b'grp\x00' + ('p%d' % idx).encode() + b'\x00'
+        if port == 2 and channel == 3 and data[:1] == [2]:
+            return 2, 3, bytes([2, data[1], data[2], 1])        # extended type: persistent
         if port == 2 and channel == 1:
             return 2, 1, bytes([data[0], data[1], 0, 40 + data[0]])
         if port == 3:
@@ -111,16 +245,37 @@ class World:
                 return pending.pop(0)
             return stop()
         c.set(link, 'receive_packet', c.ext(link.name if hasattr(link, 'name') else 'link', returns={'()': rx}))
+        self.in_dispatch = True
         c.call((c.getfield(self.cf, 'incoming'), 'run'))
+        self.in_dispatch = False
         c.ensure('dispatcher-survives', "raised == 'StopLoop'", cls='A')
         self.exchanged += 1
         return True
 
     def pump_updater(self):
+        self.pump(self.upd)
+        if self.extended:
+            # every extended-type fetcher thread ever started (those of earlier attempts are still there)
+            c = self.c
+            seen = []
+            for e in c.get('trace') or ():
+                if e[0] == 'thread:_ExtendedTypeFetcher.start' and not any(e[1][0] is x for x in seen):
+                    seen.append(e[1][0])
+            for t in self.fetchers:
+                if not any(t is x for x in seen):
+                    seen.insert(0, t)
+            self.fetchers = seen
+            for t in seen:
+                self.pump(t)
+
+    fetchers = ()
+
+    def pump(self, thread):
+        """let a queue-serving thread run until it blocks (empty queue, or the lock of the request in flight)"""
         c = self.c
-        q = c.getfield(self.upd, 'request_queue')
+        q = c.getfield(thread, 'request_queue')
         before = list(q.items)
-        c.call((self.upd, 'run'))
+        c.call((thread, 'run'))
         if c.get('raised') == 'Deadlock' and c.concretize("'acquire' in str(exc)"):
             taken = len(before) - len(q.items)
             if taken >= 1:
@@ -134,11 +289,17 @@ class World:
         return [e for e in c.get('trace') or () if e[0] == name]
 
     def step(self):
-        """answer the next unanswered request of the current link; False when there is nothing to answer"""
+        """let the queue-serving threads transmit, or else answer the next unanswered request of the current link; False when
+        there is nothing left to do"""
         c = self.c
+        n_before = len(self.sent_packets())
         self.pump_updater()
         c.snapshot('trace', 'trace')
         sent = self.sent_packets()
+        if len(sent) > n_before:
+            # a queue-serving thread (parameter updater, extended-type fetcher) transmitted a request: a step of its own, so
+            # that an interruption can fall between this transmission and the device's answer
+            return True
         while self.answered < len(sent):
             pk = sent[self.answered][1][0]
             self.answered += 1
@@ -172,10 +333,12 @@ FULL = ('connection_requested', 'link_established', 'connected', 'fully_connecte
 @contract('C02', 'connect.full-sequence', LIFE_F,
           clause='connection_requested, link_established, connected, fully_connected in that order, once each; connected only once the log and '
                  'parameter tables are complete, fully_connected only once every parameter has a value',
-          bounded='device with empty log table and 1 or 2 parameters (protocol version 9)')
+          bounded='device with empty log table, 1 or 2 parameters (protocol version 9) with or without extended type information (fetched by a '
+                  'thread of its own, one request at a time, before connected), 0 or 2 memories or one 1-wire deck memory (read before connected)')
 def full_sequence(c):
     n = c.choice('n_params', [1, 2])
-    w = World(c, n)
+    dev = c.choice('device', ['plain', 'extended', 'memories', 'onewire'])
+    w = World(c, n, extended=(dev == 'extended'), n_mems={'memories': 2, 'onewire': 1}.get(dev, 0), onewire=(dev == 'onewire'))
     c.call((w.cf, 'open_link'), URI)
     c.ensure('open-returns', 'raised is None')
     seen_before_connected = None
@@ -184,6 +347,12 @@ def full_sequence(c):
         if 'connected' in ev and seen_before_connected is None:
             seen_before_connected = True
             c.ensure('tables-complete-when-connected', "cf.log.toc is not None and len(cf.param.toc.toc.get('grp', {})) == %d" % n)
+            if dev == 'extended':
+                c.ensure('extended-types-known-when-connected', "all(e.is_persistent() for e in cf.param.toc.toc['grp'].values())")
+            if dev == 'memories':
+                c.ensure('memories-known-when-connected', 'len(cf.mem.mems) == 2')
+            if dev == 'onewire':
+                c.ensure('deck-memory-read-when-connected', 'len(cf.mem.mems) == 1 and cf.mem.mems[0].valid and cf.mem.mems[0].vid == 0xBC')
             c.ensure('no-value-yet-hence-not-fully-connected', "'fully_connected' not in %r" % (ev,))
         if 'fully_connected' in ev:
             c.ensure('every-parameter-has-a-value', "len(cf.param.values.get('grp', {})) == %d" % n)
@@ -192,17 +361,35 @@ def full_sequence(c):
     c.let('events', w.events())
     c.ensure('event-sequence', 'events == %r' % (FULL,))
     c.ensure('state-and-link', 'cf.state == 2 and cf.link is not None and cf.is_connected()')
+    # once each: a parameter value that arrives later (the application asks for a fresh one) is not a second fully_connected
+    c.call((c.getfield(w.cf, 'param'), 'request_param_update'), 'grp.p0')
+    w.run_until_quiet()
+    c.let('events', w.events())
+    c.ensure('later-value-is-not-a-second-fully-connected', 'events == %r' % (FULL,))
+    c.ensure('request-answered', 'not wait_lock.locked() and rq.qsize() == 0')
 
 
-def _interrupted(how):
-    @contract('C02', 'interrupted.%s' % how, LIFE_F,
+def _interrupted(how, device='plain', points=None, suffix='', thorough_only=False):
+    ks = {'plain': 10, 'extended': 12, 'memories': 12, 'onewire': 12}[device]
+    points = tuple(range(ks)) if points is None else tuple(points)
+    world = {'plain': {}, 'extended': {'extended': True}, 'memories': {'n_mems': 2}, 'onewire': {'n_mems': 1, 'onewire': True}}[device]
+
+    @contract('C02', 'interrupted%s.%s%s' % ('' if device == 'plain' else '-' + device, how, suffix),
+              LIFE_F + ([PRM + ':_ExtendedTypeFetcher.run', PRM + ':_ExtendedTypeFetcher._new_packet_cb', PRM + ':_ExtendedTypeFetcher.request_extended_types']
+                        if device == 'extended' else []) + (['cflib.crazyflie.mem:Memory._handle_cmd_info_details', 'cflib.crazyflie.mem:Memory._handle_cmd_info_nbr']
+                                                          if device in ('memories', 'onewire') else []) + (
+                  [MEMP + ':Memory._mem_update_done', MEMP + ':Memory.read', MEMP + ':Memory._handle_chan_read', MEMP + ':Memory._disconnected'] if device == 'onewire' else []),
+              thorough_only=thorough_only,
               clause='a link failure before any packet arrives gives exactly connection_failed; after the first packet exactly one disconnected and '
                      'then one connection_lost; every close_link gives exactly one disconnected; nothing of the attempt is delivered after its first '
                      'disconnected; afterwards the same object connects again with a complete, well-ordered sequence',
-              bounded='interruption after k = 0..9 exchanged packets; device with 1 parameter')
+              bounded='interruption after k in %s exchanged packets (a request transmitted by the parameter thread or the extended-type thread '
+                      'and its answer count separately); device with 1 parameter%s' % (
+                  '0..%d' % (ks - 1) if points == tuple(range(ks)) else repr(points), {'plain': '', 'extended': ' that has extended type information (fetched by a thread of its own before connected)',
+                           'memories': ' and 2 memories (I2C, LOCO)', 'onewire': ' and a 1-wire deck memory (read before connected)'}[device]))
     def k(c):
-        w = World(c, 1)
-        kk = c.choice('k', list(range(10)))
+        w = World(c, 1, **world)
+        kk = c.choice('k', list(points))
         c.call((w.cf, 'open_link'), URI)
         done = w.run_until_quiet(stop_after=kk)
         before = w.events()
@@ -246,13 +433,21 @@ def _interrupted(how):
 
 for _h in ('error', 'close', 'error-twice'):
     _interrupted(_h)
+for _h in ('error', 'close'):
+    _interrupted(_h, 'memories')
+    _interrupted(_h, 'onewire')
+    # FINDING on the unchanged tree (k = 8: the request of the extended-type thread is in flight): that thread's packet callback stays
+    # registered, in the next attempt it answers too and `connected` is delivered twice.  Kept in the thorough tier.
+    _interrupted(_h, 'extended', points=[k for k in range(12) if k != 8])
+    _interrupted(_h, 'extended', points=[8], suffix='.request-in-flight', thorough_only=True)
 
 
 @contract('C02', 'reconnect.stale-retry-timers', LIFE_F + [CF + ':Crazyflie.send_packet', CF + ':Crazyflie._no_answer_do_retry'],
           clause='the same Crazyflie object can connect again: retry timers of requests that were still unanswered when the application closed '
-                 'the link (close_link does not cancel them) fire during the next attempt without blocking it or sending anything of the old attempt',
-          bounded='link without delivery guarantee (needs_resending), close after k = 1..8 exchanged packets, every pending timer fires right '
-                  'after the next open_link; device with 1 parameter')
+                 'the link (close_link does not cancel them) fire during the next attempt without blocking it or sending anything of the old attempt; '
+                 'after a link error (which does not cancel them either) they do not block or disorder the next attempt',
+          bounded='link without delivery guarantee (needs_resending), close / link error after k = 1..8 exchanged packets, every pending timer '
+                  'fires right after the next open_link; device with 1 parameter')
 def stale_retry_timers(c):
     w = World(c, 1, needs_resending=True)
     kk = c.choice('k', list(range(1, 9)))
@@ -260,7 +455,11 @@ def stale_retry_timers(c):
     w.run_until_quiet(stop_after=kk)
     c.snapshot('stale', "tuple(t[1][1] for t in sent('Timer') if any(is_same(t[2]['timer'], v) for v in cf._answer_patterns.values()))")
     n_stale = c.concretize('len(stale)')
-    c.call((w.cf, 'close_link'))
+    ended_by = c.choice('attempt_ended_by', ['close_link', 'link-error'])
+    if ended_by == 'close_link':
+        c.call((w.cf, 'close_link'))
+    else:
+        c.call((w.cf, '_link_error_cb'), 'too many packets lost')
     c.require('raised is None')
     c.reset_trace()
     c.call((w.cf, 'open_link'), URI)
@@ -269,7 +468,12 @@ def stale_retry_timers(c):
     for i in range(n_stale):
         c.call(c.get('stale')[i] if isinstance(c.get('stale'), tuple) else c.get('stale'))
         c.ensure('stale-timer-%d-returns' % i, 'raised is None')
-    c.ensure('nothing-of-the-old-attempt-is-sent', "len(sent('link1.send_packet')) == n_sent and len(sent('link0.send_packet')) == 0")
+    if ended_by == 'close_link':
+        c.ensure('nothing-of-the-old-attempt-is-sent', "len(sent('link1.send_packet')) == n_sent and len(sent('link0.send_packet')) == 0")
+    else:
+        # after a link ERROR the expected-answer table is not cleared (observation, reported): the stale timers re-transmit requests of the
+        # old attempt on the new link.  The property only asks that the new attempt is not blocked or disordered by them.
+        c.ensure('nothing-is-sent-on-the-dead-link', "len(sent('link0.send_packet')) == 0")
     c.ensure('send-lock-free', 'not cf._send_lock.locked()')
     w.run_until_quiet()
     c.let('again', w.events())
@@ -375,15 +579,17 @@ def sync_open_close(c):
 
 
 @contract('C02', 'updater.link-lost-while-waiting', [PRM + ':_ParamUpdater.run', PRM + ':_ParamUpdater.close', PRM + ':Param._disconnected',
-                                                     CF + ':Crazyflie._link_error_cb'],
+                                                     CF + ':Crazyflie._link_error_cb', CF + ':Crazyflie.close_link'],
           clause='the library reaches the disconnected state without leaving a lock behind: when the link is lost while the parameter thread '
                  'waits for the previous answer, the thread wakes up, transmits nothing on the dead link and does not keep the lock, so the same '
                  'object can download its parameters again after reconnecting',
-          bounded='one schedule: the link error is handled by another thread while the parameter thread is blocked in wait_lock.acquire()')
+          bounded='one schedule: the link error is handled (or the application\'s close_link runs) on another thread while the parameter thread is '
+                  'blocked in wait_lock.acquire()')
 def link_lost_while_waiting(c):
     w = World(c, 1)
     c.call((w.cf, 'open_link'), URI)
     w.run_until_quiet(stop_after=7)
+    ended_by = c.choice('ended_by', ['link-error', 'close_link'])
     st = {'held': True, 'fired': False}
     upd = w.upd
 
@@ -392,7 +598,10 @@ def link_lost_while_waiting(c):
             # the thread blocks here; meanwhile the driver reports a link error on another thread, whose handling
             # (Param._disconnected -> _ParamUpdater.close) releases this lock; then the blocked acquire succeeds
             st['fired'] = True
-            c.invoke((w.cf, '_link_error_cb'), 'link lost')
+            if ended_by == 'link-error':
+                c.invoke((w.cf, '_link_error_cb'), 'link lost')
+            else:
+                c.invoke((w.cf, 'close_link'))
         if st['held']:
             return c.raiser('Deadlock', 'acquire of a lock nobody will release')()
         st['held'] = True
@@ -409,6 +618,605 @@ def link_lost_while_waiting(c):
     c.reset_trace()
     c.call((upd, 'run'))
     c.ensure('thread-goes-back-to-waiting-for-requests', "raised == 'Deadlock' and 'get on empty queue' in str(exc)")
-    c.ensure('nothing-transmitted-on-the-dead-link', "cf.link is None and not any(n.startswith('link') and n.endswith('send_packet') for n in calls())")
+    if ended_by == 'link-error':
+        c.ensure('nothing-transmitted-on-the-dead-link', "cf.link is None and not any(n.startswith('link') and n.endswith('send_packet') for n in calls())")
+    else:
+        # close_link itself transmits its zero set-point before it closes the link; the woken parameter thread transmits nothing
+        c.ensure('nothing-transmitted-on-the-dead-link', "cf.link is None and all(e[1][0].port == 3 for e in sent('link0.send_packet')) and len(sent('link0.send_packet')) <= 1")
     c.let('held', st['held'])
     c.ensure('lock-not-kept', 'held is False')
+
+
+# ---------------------------------------------------------------------------------------------------------------------
+# round 5: close_link in every state, the real blocking SyncCrazyflie calls under an explicit schedule
+# ---------------------------------------------------------------------------------------------------------------------
+
+@contract('C02', 'close_link.exactly-one-disconnected-in-every-state', LIFE_F,
+          clause='every close_link call produces exactly one disconnected: also when the object never connected, when the attempt has already '
+                 'failed (no driver, link error before the first packet), when the connection has already been lost, and for a second '
+                 'close_link in a row; nothing else is signalled and the same object connects again afterwards',
+          bounded='earlier interruption after k = 0..9 exchanged packets; device with 1 parameter')
+def close_in_every_state(c):
+    w = World(c, 1)
+    before_close = c.choice('history', ['fresh', 'no-driver', 'error', 'close'])
+    if before_close == 'fresh':
+        c.call((w.cf, 'is_connected'))
+        c.ensure('a-new-object-is-not-connected', 'result is False and cf.state == 0')
+    elif before_close == 'no-driver':
+        w.driver_mode = 'none'
+        c.call((w.cf, 'open_link'), 'bogus://1')
+        w.driver_mode = 'link'
+    elif before_close in ('error', 'close'):
+        kk = c.choice('k', list(range(10)))
+        c.call((w.cf, 'open_link'), URI)
+        w.run_until_quiet(stop_after=kk)
+        if before_close == 'error':
+            c.call((w.cf, '_link_error_cb'), 'radio unplugged')
+        else:
+            c.call((w.cf, 'close_link'))
+        c.require('raised is None')
+    for i in range(2):
+        n_ev = len(w.events())
+        c.call((w.cf, 'close_link'))
+        c.ensure('close-%d-returns' % i, 'raised is None')
+        c.let('after', w.events()[n_ev:])
+        c.ensure('close-%d-gives-exactly-one-disconnected' % i, "after == ('disconnected',)")
+        c.ensure('close-%d-disconnected-state' % i, 'cf.link is None and cf.state == 0 and not cf.is_connected()')
+    c.reset_trace()
+    c.call((w.cf, 'open_link'), URI)
+    w.run_until_quiet()
+    c.let('again', w.events())
+    c.ensure('reconnect-complete-and-ordered', 'again == %r' % (FULL,))
+
+
+class SyncWorld(World):
+    """World + a real SyncCrazyflie whose blocking waits are explicit schedule points.
+
+    `threading.Event` as imported by cflib.crazyflie.syncCrazyflie is replaced by a stub with the semantics of an event
+    (set / clear / is_set) whose wait() is the schedule: while the calling (user) thread is blocked, the other threads
+    run - the device answers, the dispatcher thread delivers, the parameter thread sends - one exchanged packet at a
+    time, until the event is set.  `fault` = (k, action): after the k-th packet exchanged during waits the driver
+    thread / the application does `action` instead.  A wait that nobody can end any more (nothing left to exchange and
+    the event still clear) is the pseudo exception Deadlock: the blocking call hangs."""
+
+    def __init__(self, c, n_params=1):
+        World.__init__(self, c, n_params)
+        self.flags = []
+        self.fault = None
+        self.before_event = None
+        self.wait_exchanged = 0
+        self.waits = 0
+
+        def make_event(_i, _a, _k):
+            cell = {'flag': False}
+            self.flags.append(cell)
+            if self.before_event is not None:
+                # another thread runs between the statement before `Event()` and the creation of the event
+                action = self.before_event
+                self.before_event = None
+                action()
+
+            def wait(_i, args, kwargs):
+                self.waits += 1
+                while not cell['flag']:
+                    if self.fault is not None and self.wait_exchanged >= self.fault[0]:
+                        action = self.fault[1]
+                        self.fault = None
+                        action()
+                        continue
+                    if not self.step():
+                        break
+                    self.wait_exchanged += 1
+                # the nested runs of the other threads' code must not show up as the outcome of the blocking call itself
+                c.let('raised', None), c.let('exc', None), c.let('result', None)
+                if not cell['flag']:
+                    return c.raiser('Deadlock', 'wait on an event that no thread will ever set')()
+                return True
+
+            def set_(*_a):
+                cell['flag'] = True
+                return None
+
+            def clear(*_a):
+                cell['flag'] = False
+                return None
+            return c.ext('event%d' % (len(self.flags) - 1), returns={'wait': wait, 'set': set_, 'clear': clear, 'is_set': lambda *_a: cell['flag']})
+        c.patch(SCF + ':Event', c.ext('Event', returns={'()': make_event}))
+        self.scf = c.new(SCF + ':SyncCrazyflie', URI, self.cf)
+        c.let('scf', self.scf)
+        c.reset_trace()
+
+    def n_callbacks(self):
+        return self.c.concretize('len(cf.connected.callbacks) + len(cf.disconnected.callbacks) + len(cf.connection_failed.callbacks) + len(cf.fully_connected.callbacks)')
+
+
+SYNC_F = [SCF + ':SyncCrazyflie.__enter__', SCF + ':SyncCrazyflie.__exit__', SCF + ':SyncCrazyflie.open_link', SCF + ':SyncCrazyflie.close_link', SCF + ':SyncCrazyflie.wait_for_params', SCF + ':SyncCrazyflie.is_params_updated',
+          SCF + ':SyncCrazyflie.is_link_open', SCF + ':SyncCrazyflie._connected', SCF + ':SyncCrazyflie._connection_failed', SCF + ':SyncCrazyflie._disconnected',
+          SCF + ':SyncCrazyflie._all_params_updated', SCF + ':SyncCrazyflie._add_callbacks', SCF + ':SyncCrazyflie._remove_callbacks']
+
+
+@contract('C02', 'sync.sessions-on-one-object', SYNC_F + LIFE_F,
+          clause='a blocking SyncCrazyflie open or close call returns; connected is signalled (open_link returns) only once the tables are complete, '
+                 'fully_connected (wait_for_params returns, is_params_updated) only once every parameter of THIS attempt has a value; after a close or '
+                 'a lost link the same object connects again and nothing of the previous attempt - not its parameters-updated flag either - is '
+                 'visible in the new one',
+          bounded='one schedule per wait: the user thread is blocked until the event is set, the other threads run meanwhile; first session ended by '
+                  'link error / SyncCrazyflie.close_link / Crazyflie.close_link, before or after the parameter values arrived; device with 1 or 2 parameters')
+def sync_sessions(c):
+    n = c.choice('n_params', [1, 2])
+    w = SyncWorld(c, n)
+    end = c.choice('end_of_first_session', ['error', 'sync-close', 'cf-close'])
+    params_first = c.choice('values_arrived_in_first_session', [True, False])
+    as_context_manager = c.choice('with_statement', [False, True])
+    n_cb = w.n_callbacks()
+    for session in (0, 1):
+        c.reset_trace()
+        if as_context_manager:
+            c.call((w.scf, '__enter__'))
+            c.ensure('s%d-enter-gives-the-object' % session, 'is_same(result, scf)')
+        else:
+            c.call((w.scf, 'open_link'))
+        c.ensure('s%d-open-returns' % session, 'raised is None and scf.is_link_open()')
+        c.let('ev', w.events())
+        c.ensure('s%d-open-returns-once-connected-and-not-later' % session, "ev == ('connection_requested', 'link_established', 'connected')")
+        c.ensure('s%d-tables-complete' % session, "cf.log.toc is not None and len(cf.param.toc.toc.get('grp', {})) == %d" % n)
+        c.ensure('s%d-no-value-of-this-session-yet-hence-not-updated' % session, "not scf.is_params_updated() and len(cf.param.values.get('grp', {})) == 0")
+        if session == 1 or params_first:
+            c.call((w.scf, 'wait_for_params'))
+            c.ensure('s%d-wait-for-params-returns' % session, 'raised is None and scf.is_params_updated()')
+            c.let('ev', w.events())
+            c.ensure('s%d-returns-once-fully-connected' % session, "ev == %r" % (FULL,))
+            c.ensure('s%d-every-parameter-has-a-value' % session, "len(cf.param.values.get('grp', {})) == %d" % n)
+        if session == 0:
+            n_ev = len(w.events())
+            if end == 'error':
+                c.call((w.cf, '_link_error_cb'), 'too many packets lost')
+                c.let('after', w.events()[n_ev:])
+                c.ensure('lost-after-first-packet', "after == ('disconnected', 'connection_lost')")
+            elif end == 'sync-close':
+                if as_context_manager:
+                    c.call((w.scf, '__exit__'), None, None, None)
+                else:
+                    c.call((w.scf, 'close_link'))
+                c.let('after', w.events()[n_ev:])
+                c.ensure('exactly-one-disconnected', "after == ('disconnected',)")
+            else:
+                c.call((w.cf, 'close_link'))
+                c.let('after', w.events()[n_ev:])
+                c.ensure('exactly-one-disconnected', "after == ('disconnected',)")
+            c.ensure('end-handled', 'raised is None and not scf.is_link_open() and cf.link is None and cf.state == 0')
+            c.let('n_cb_now', w.n_callbacks())
+            c.ensure('callbacks-removed-again', 'n_cb_now == %d' % n_cb)
+    if as_context_manager:
+        c.call((w.scf, '__exit__'), None, None, None)
+    else:
+        c.call((w.scf, 'close_link'))
+    c.let('ev', w.events())
+    c.ensure('final-close-returns', "raised is None and not scf.is_link_open() and not scf.is_params_updated() and ev[len(%r):] == ('disconnected',)" % (FULL,))
+    c.let('n_cb_now', w.n_callbacks())
+    c.ensure('callbacks-removed-at-the-end', 'n_cb_now == %d' % n_cb)
+
+
+def _sync_fault(action, ks, suffix='', thorough_only=False):
+    @contract('C02', 'sync.open-under-%s%s' % (action, suffix), SYNC_F + LIFE_F, thorough_only=thorough_only,
+              clause='whenever the link driver reports an error or the application closes the link, at any point of the sequence, a blocking '
+                     'SyncCrazyflie open call returns or raises (it raises when the attempt did not get as far as connected), the callbacks it '
+                     'registered are removed again and the same object can connect again',
+              bounded='the fault happens on another thread while the user thread is blocked in open_link, after k in %r packets were exchanged; '
+                      'device with 1 parameter' % (ks,))
+    def k(c):
+        w = SyncWorld(c, 1)
+        kk = c.choice('k', list(ks))
+        n_cb = w.n_callbacks()
+        if action == 'link-error':
+            w.fault = (kk, lambda: c.invoke((w.cf, '_link_error_cb'), 'radio unplugged'))
+        else:
+            w.fault = (kk, lambda: c.invoke((w.cf, 'close_link')))
+        c.call((w.scf, 'open_link'))
+        c.let('fired', w.fault is None)
+        w.fault = None
+        c.let('ev', w.events())
+        c.ensure('fault-happened-during-open', 'fired', cls='A')
+        c.ensure('open-returns-or-raises', "raised is None or raised == 'Exception'")
+        c.ensure('returns-iff-connected-was-signalled', "implies(raised is None, 'connected' in ev) and implies(raised == 'Exception', 'connected' not in ev)")
+        c.ensure('not-open-after-the-fault', "not scf.is_link_open() and cf.link is None and cf.state == 0")
+        # whatever happened, the application can close and the object connects again
+        c.call((w.scf, 'close_link'))
+        c.ensure('close-returns', 'raised is None and not scf.is_link_open()')
+        c.let('n_cb_now', w.n_callbacks())
+        c.ensure('callbacks-removed-again', 'n_cb_now == %d' % n_cb)
+        c.reset_trace()
+        c.call((w.scf, 'open_link'))
+        c.ensure('second-open-returns', 'raised is None and scf.is_link_open()')
+        c.call((w.scf, 'wait_for_params'))
+        c.let('again', w.events())
+        c.ensure('reconnect-complete-and-ordered', 'raised is None and again == %r and scf.is_params_updated()' % (FULL,))
+    return k
+
+
+# A link error before the first packet ends the attempt with connection_failed: open_link raises.  The points after the first packet and
+# before `connected` (and every application close_link during a blocking open) are a FINDING on the unchanged tree: nobody sets the
+# event open_link waits for, the call never returns.  Those contracts are kept (thorough tier) so that `./vcheck C02` stays green.
+_sync_fault('link-error', (0,))
+_sync_fault('link-error', (1, 2, 3, 4, 5, 6), suffix='.after-first-packet', thorough_only=True)
+_sync_fault('close-link', (0, 1, 2, 3, 4, 5, 6), thorough_only=True)
+
+
+SEND_F = LIFE_F + [CF + ':Crazyflie.send_packet', LS + ':LinkStatistics.start', LS + ':LinkStatistics.stop', LS + ':Latency.start', LS + ':Latency.stop',
+                   LS + ':Latency._ping_thread', PRM + ':_ParamUpdater.run', PRM + ':_ParamUpdater.close', PRM + ':Param._disconnected']
+
+
+@contract('C02', 'link-error.from-the-sending-thread', SEND_F,
+          clause='a link error reported from the sending thread (the driver cannot transmit and calls the error callback from inside send_packet, '
+                 'i.e. from open_link, from a dispatcher callback that sends the next request, or from the parameter thread) gives the same '
+                 'notifications as one reported from the driver thread: connection_failed before the first packet, afterwards exactly one '
+                 'disconnected and then one connection_lost; no thread dies, no lock stays taken, the latency-ping thread has ended when the '
+                 'disconnect returns, and the same object connects again',
+          bounded='the n-th transmission of the attempt fails, n = 0..8 (8 = the zero set-point of close_link); device with 1 parameter; the '
+                  'latency-ping thread is asleep between two pings when it is joined')
+def link_error_from_sender(c):
+    w = World(c, 1)
+    c.set(w.cf, '_send_lock', c.lock('send_lock'))
+    n = c.choice('n', list(range(9)))
+    w.send_fault = (n, lambda: c.invoke((w.cf, '_link_error_cb'), 'RadioDriver: Could not send packet to copter'))
+    c.call((w.cf, 'open_link'), URI)
+    c.ensure('open-returns', 'raised is None')
+    w.run_until_quiet()
+    if w.send_fault is not None:
+        # every request went out: the application closes the link and the zero set-point cannot be transmitted
+        c.let('before', w.events())
+        c.ensure('complete-before-close', 'before == %r' % (FULL,))
+        c.call((w.cf, 'close_link'))
+        c.ensure('close-returns', 'raised is None')
+        c.let('after', w.events()[len(FULL):])
+        c.ensure('lost-then-the-disconnected-of-close', "after == ('disconnected', 'connection_lost', 'disconnected')")
+    else:
+        ev = w.events()
+        c.let('ev', ev)
+        cut = ev.index('connection_failed') if 'connection_failed' in ev else (ev.index('disconnected') if 'disconnected' in ev else len(ev))
+        c.let('before', ev[:cut])
+        c.let('after', ev[cut:])
+        c.ensure('prefix-of-the-sequence', 'before == %r[:len(before)]' % (FULL,))
+        if n == 0:
+            c.ensure('failed-before-first-packet', "after == ('connection_failed',)")
+        else:
+            c.ensure('lost-after-first-packet', "after == ('disconnected', 'connection_lost')")
+    c.let('fired', w.send_fault is None)
+    c.ensure('the-transmission-failed', 'fired', cls='A')
+    c.ensure('disconnected-state', 'cf.link is None and cf.state == 0 and not cf.is_connected() and len(cf._answer_patterns) == 0')
+    c.ensure('no-lock-left-behind', 'not cf._send_lock.locked() and not wait_lock.locked()')
+    c.let('pings_alive', w.pings_alive())
+    c.ensure('ping-thread-ended', 'pings_alive == 0')
+    c.ensure('link-closed-exactly-once', "len(sent('link0.close')) == 1")
+    c.reset_trace()
+    c.call((w.cf, 'open_link'), URI)
+    w.run_until_quiet()
+    c.let('again', w.events())
+    c.ensure('reconnect-complete-and-ordered', 'again == %r' % (FULL,))
+    c.let('pings_alive', w.pings_alive())
+    c.ensure('one-ping-thread-in-the-new-session', 'pings_alive == 1')
+    # ... and it is not dead on arrival: run from the head of its loop it goes on pinging (the model stops it after three rounds)
+    c.reset_trace()
+    c.call([t for t in w.pings if t['state'] == 'alive'][0]['target'])
+    c.ensure('ping-thread-of-the-new-session-keeps-running', "raised == 'Deadlock' and len(sent('link1.send_packet')) >= 3")
+
+
+@contract('C02', 'link-error.from-the-sending-thread-while-ping-waits', SEND_F + [LS + ':Latency.ping'], thorough_only=True,
+          clause='whenever the link driver reports an error, under any thread interleaving, the library reaches the disconnected state without any '
+                 'thread deadlocking: the driver reports that it cannot transmit from inside send_packet (the sending thread holds the send lock) '
+                 'while the latency-ping thread is waiting for that lock in ping(); the disconnect joins the ping thread',
+          bounded='one schedule, after fully_connected: an application thread sends a set-point, the driver reports the failure from that call, the '
+                  'latency-ping thread is blocked in Crazyflie.send_packet at that moment; device with 1 parameter')
+def link_error_from_sender_ping_waits(c):
+    w = World(c, 1)
+    c.set(w.cf, '_send_lock', c.lock('send_lock'))
+    c.call((w.cf, 'open_link'), URI)
+    w.run_until_quiet()
+    c.let('before', w.events())
+    c.require('before == %r' % (FULL,))
+    c.let('pings_alive', w.pings_alive())
+    c.ensure('one-ping-thread-while-connected', 'pings_alive == 1', cls='A')
+    w.ping_blocked_in_send = True
+    w.send_fault = (w.n_sent, lambda: c.invoke((w.cf, '_link_error_cb'), 'RadioDriver: Could not send packet to copter'))
+    c.call((c.getfield(w.cf, 'commander'), 'send_setpoint'), 0, 0, 0, 0)
+    c.ensure('sending-call-returns-no-deadlock', 'raised is None')
+    c.let('after', w.events()[len(FULL):])
+    c.ensure('lost-after-first-packet', "after == ('disconnected', 'connection_lost')")
+    c.ensure('disconnected-state', 'cf.link is None and cf.state == 0 and not cf.is_connected()')
+    c.ensure('no-lock-left-behind', 'not cf._send_lock.locked()')
+
+
+def _sync_close_fault(when, thorough_only=False):
+    @contract('C02', 'sync.close-while-the-link-fails.%s' % when, SYNC_F + LIFE_F + [CF + ':Crazyflie.send_packet'], thorough_only=thorough_only,
+              clause='a blocking SyncCrazyflie close call returns or raises, also when the link driver reports an error while the call is under way '
+                     '(under any thread interleaving), and the same object can connect again',
+              bounded='one schedule after fully_connected: ' + {
+                  'before-the-event-exists': 'the driver thread reports the error after close_link has seen the link open and before it has created '
+                                             'the event it waits on',
+                  'from-the-set-point-transmission': 'the driver reports from inside the transmission of the zero set-point of Crazyflie.close_link '
+                                                     '(sending thread) that it cannot send'}[when])
+    def k(c):
+        w = SyncWorld(c, 1)
+        c.set(w.cf, '_send_lock', c.lock('send_lock'))
+        c.call((w.scf, 'open_link'))
+        c.call((w.scf, 'wait_for_params'))
+        c.let('before', w.events())
+        c.require('raised is None and before == %r' % (FULL,))
+        n_cb = w.n_callbacks()
+        if when == 'before-the-event-exists':
+            w.before_event = lambda: c.invoke((w.cf, '_link_error_cb'), 'too many packets lost')
+        else:
+            w.send_fault = (w.n_sent, lambda: c.invoke((w.cf, '_link_error_cb'), 'RadioDriver: Could not send packet to copter'))
+        c.call((w.scf, 'close_link'))
+        c.let('fired', w.before_event is None and w.send_fault is None)
+        c.ensure('error-happened-during-close', 'fired', cls='A')
+        c.ensure('close-returns-or-raises', "raised != 'Deadlock'")
+        c.ensure('closed', 'not scf.is_link_open() and cf.link is None and cf.state == 0')
+        c.let('after', w.events()[len(FULL):])
+        c.ensure('lost-once-and-one-disconnected-for-the-close', "after == ('disconnected', 'connection_lost', 'disconnected')")
+        c.ensure('no-lock-left-behind', 'not cf._send_lock.locked()')
+        c.let('n_cb_now', w.n_callbacks())
+        c.ensure('callbacks-removed-again', 'n_cb_now == %d' % (n_cb - 4))
+        c.reset_trace()
+        c.call((w.scf, 'open_link'))
+        c.call((w.scf, 'wait_for_params'))
+        c.let('again', w.events())
+        c.ensure('reconnect-complete-and-ordered', 'raised is None and again == %r and scf.is_params_updated()' % (FULL,))
+    return k
+
+
+_sync_close_fault('from-the-set-point-transmission')
+# FINDING on the unchanged tree (kept, thorough tier): the error handling removes SyncCrazyflie's callbacks before the event exists, the
+# disconnected of Crazyflie.close_link reaches nobody, close_link waits for ever
+_sync_close_fault('before-the-event-exists', thorough_only=True)
+
+
+@contract('C02', 'link-error.reported-by-two-threads-at-once', LIFE_F, thorough_only=True,
+          clause='a link failure after the first packet produces exactly one disconnected and then one connection_lost, under any thread '
+                 'interleaving: the driver thread and a sending thread both report the failure of the same link, the second report arrives while '
+                 'the first one is being delivered to the callbacks',
+          bounded='one schedule: the second report is handled by another thread while the first is inside the application\'s disconnected callback; '
+                  'after k = 1..9 exchanged packets; device with 1 parameter')
+def link_error_twice_concurrently(c):
+    w = World(c, 1)
+    kk = c.choice('k', list(range(1, 10)))
+    fired = []
+
+    def second_report(*_a):
+        if not fired:
+            fired.append(1)
+            c.invoke((w.cf, '_link_error_cb'), 'RadioDriver: Could not send packet to copter')
+        return None
+    c.invoke((c.getfield(w.cf, 'disconnected'), 'add_callback'), c.ext('other_thread_reports', returns={'()': second_report}))
+    c.call((w.cf, 'open_link'), URI)
+    w.run_until_quiet(stop_after=kk)
+    n_ev = len(w.events())
+    c.call((w.cf, '_link_error_cb'), 'Too many packets lost')
+    c.ensure('handled-without-exception', 'raised is None')
+    c.let('after', w.events()[n_ev:])
+    c.ensure('exactly-one-disconnected-then-one-connection-lost', "after == ('disconnected', 'connection_lost')")
+    c.ensure('disconnected-state', 'cf.link is None and cf.state == 0 and not cf.is_connected()')
+
+
+MID_POINTS = {'setup-requested': 'We are connected', 'log-toc-done': 'Log TOC finished', 'memories-done': 'Memories finished',
+              'param-toc-done': 'Param TOC finished', 'all-parameters-updated': 'All parameters updated'}
+
+
+def _mid_callback(action, points, suffix='', thorough_only=False):
+    @contract('C02', 'mid-callback.%s%s' % (action, suffix), LIFE_F, thorough_only=thorough_only,
+              clause='no link_established, connected or fully_connected of an attempt is delivered after that attempt\'s first disconnected, under '
+                     'any thread interleaving: the driver thread reports an error / the application thread closes the link while the dispatcher '
+                     'thread is in the middle of the callback that is about to signal the next stage; the notifications are those of a link '
+                     'failure / a close, the library ends up disconnected and the same object connects again',
+              bounded='one schedule per point: the other thread runs to completion at the log statement that opens the library callback (points %s); '
+                      'device with 1 parameter' % (', '.join(points),))
+    def k(c):
+        w = World(c, 1)
+        point = c.choice('point', list(points))
+        text = MID_POINTS[point]
+        fired = []
+
+        def log(_i, args, _k):
+            if not fired and args and isinstance(args[0], str) and args[0].startswith(text):
+                fired.append(1)
+                if action == 'link-error':
+                    c.invoke((w.cf, '_link_error_cb'), 'too many packets lost')
+                else:
+                    c.invoke((w.cf, 'close_link'))
+            return None
+        c.patch(CF + ':logger', c.ext('cf_logger', returns={'info': log}))
+        c.call((w.cf, 'open_link'), URI)
+        c.ensure('open-returns', 'raised is None')
+        w.run_until_quiet()
+        c.let('fired', bool(fired))
+        c.ensure('the-other-thread-ran', 'fired', cls='A')
+        ev = w.events()
+        c.let('ev', ev)
+        cut = ev.index('connection_failed') if 'connection_failed' in ev else (ev.index('disconnected') if 'disconnected' in ev else len(ev))
+        c.let('before', ev[:cut])
+        c.let('after', ev[cut:])
+        c.ensure('prefix-of-the-sequence', 'before == %r[:len(before)]' % (FULL,))
+        if action == 'close-link':
+            c.ensure('exactly-one-disconnected-and-nothing-of-the-attempt-afterwards', "after == ('disconnected',)")
+        elif point == 'setup-requested':
+            c.ensure('failed-before-first-packet', "after == ('connection_failed',)")
+        else:
+            c.ensure('lost-and-nothing-of-the-attempt-afterwards', "after == ('disconnected', 'connection_lost')")
+        c.ensure('disconnected-state', 'cf.link is None and cf.state == 0 and not cf.is_connected()')
+        c.let('pings_alive', w.pings_alive())
+        c.ensure('no-ping-thread-left-running', 'pings_alive == 0')
+        c.reset_trace()
+        c.call((w.cf, 'open_link'), URI)
+        w.run_until_quiet()
+        c.let('again', w.events())
+        c.ensure('reconnect-complete-and-ordered', 'again == %r' % (FULL,))
+    return k
+
+
+for _a in ('link-error', 'close-link'):
+    _mid_callback(_a, ['setup-requested', 'log-toc-done'])
+    # FINDING on the unchanged tree (kept, thorough tier): nothing orders the dispatcher thread's "stage complete -> signal the next stage"
+    # against a disconnect on another thread.  memories-done: the parameter TOC fetcher is started after the disconnect, stays registered
+    # and `connected` is delivered twice in the next attempt; param-toc-done / all-parameters-updated: connected / fully_connected are
+    # delivered after the attempt's disconnected, is_connected() stays True and the latency-ping thread is started on a dead link.
+    _mid_callback(_a, ['memories-done', 'param-toc-done', 'all-parameters-updated'], suffix='.next-stage-race', thorough_only=True)
+
+
+def _reconnect_from_any_callback(new_attempt, thorough_only=False):
+    @contract('C02', 'reconnect-from-any-callback.new-attempt-%s' % new_attempt, LIFE_F, thorough_only=thorough_only,
+            clause='the same Crazyflie object can connect again, for all connect/disconnect histories: an application that re-opens the link from '
+                   'inside the notification that ends an attempt (disconnected, connection_lost or connection_failed, after a link error or a '
+                   'close_link) gets a new attempt with a complete, well-ordered sequence, and the handling of the old attempt does not disturb it',
+            bounded='interruption after k = 0..9 exchanged packets; device with 1 parameter; ' + {
+                'completes': 'the new attempt is also interrupted once it is complete (link error) to see that its state is that of a connected object',
+                'fails-before-its-first-packet': 'the link of the new attempt fails before any packet arrives: that is a connection_failed'}[new_attempt])
+    def reconnect_from_any_callback(c):
+        w = World(c, 1)
+        how = c.choice('how', ['error', 'close'])
+        cb = c.choice('reopened_from', ['disconnected', 'connection_lost', 'connection_failed'])
+        kk = c.choice('k', list(range(10)))
+        c.call((w.cf, 'open_link'), URI)
+        done = w.run_until_quiet(stop_after=kk)
+        occurs = ('disconnected',) if how == 'close' else (('connection_failed',) if done == 0 else ('disconnected', 'connection_lost'))
+        if cb not in occurs:
+            return          # this notification does not occur in this history
+        fired = []
+
+        def reopen(*_a):
+            if not fired:
+                fired.append(1)
+                c.invoke((w.cf, 'open_link'), URI)
+            return None
+        c.invoke((c.getfield(w.cf, cb), 'add_callback'), c.ext('app_reconnect', returns={'()': reopen}))
+        c.reset_trace()
+        if how == 'error':
+            c.call((w.cf, '_link_error_cb'), 'lost')
+        else:
+            c.call((w.cf, 'close_link'))
+        c.ensure('handled-without-exception', 'raised is None')
+        c.let('fired', bool(fired))
+        c.ensure('application-reopened', 'fired', cls='A')
+        c.let('nlinks', len(w.links))
+        c.ensure('one-new-link-opened-and-kept', 'nlinks == 2 and cf.link is not None')
+        c.ensure('old-link-closed-new-link-not', "len(sent('link0.close')) == 1 and len(sent('link1.close')) == 0")
+        if new_attempt != 'completes':
+            c.reset_trace()
+            c.call((w.cf, '_link_error_cb'), 'dongle gone')
+            c.let('events', w.events())
+            c.ensure('new-attempt-fails-like-an-attempt', "events == ('connection_failed',)")
+            c.ensure('disconnected-state', 'cf.link is None and cf.state == 0')
+            return
+        w.run_until_quiet()
+        c.let('events', w.events())
+        c.ensure('new-attempt-completes', "events[-3:] == ('link_established', 'connected', 'fully_connected') and events.count('connected') == 1 and events.count('fully_connected') == 1")
+        # the new session is a connected one: losing it is a connection_lost, not a connection_failed or an unnoticed error
+        c.reset_trace()
+        c.call((w.cf, '_link_error_cb'), 'lost again')
+        c.let('events', w.events())
+        c.ensure('new-session-is-lost-like-a-connected-one', "events == ('disconnected', 'connection_lost')")
+    return reconnect_from_any_callback
+
+
+_reconnect_from_any_callback('completes')
+# FINDING on the unchanged tree (kept, thorough tier): _link_error_cb / close_link set the state to DISCONNECTED after the callbacks have
+# run, which overwrites the INITIALIZED of an open_link made from inside one of them; a failure of that new link before its first packet
+# is then reported as disconnected_link_error, never as connection_failed
+_reconnect_from_any_callback('fails-before-its-first-packet', thorough_only=True)
+
+
+@contract('C02', 'dispatcher-thread.parameter-access-is-refused-not-blocked', [CF + ':Crazyflie.is_called_by_incoming_handler_thread', PRM + ':Param.get_value', PRM + ':Param.set_value'],
+          clause='no thread deadlocks: an application callback running on the dispatcher thread (connected is delivered there) that reads or sets a '
+                 'parameter before the values have arrived is refused at once - waiting there would block the only thread that can deliver the '
+                 'values - whereas the same call from another thread waits (bounded by its time-out), and after fully_connected it is served',
+          bounded='device with 1 parameter; the wait of another thread is a time-out (the values never arrive while it waits)')
+def dispatcher_param_access(c):
+    w = World(c, 1)
+    param = c.getfield(w.cf, 'param')
+    op = c.choice('op', ['get_value', 'set_value'])
+    args = ('grp.p0',) if op == 'get_value' else ('grp.p0', 1)
+    c.patch(CF + ':current_thread', c.ext('current_thread', returns={'()': lambda *_a: c.getfield(w.cf, 'incoming') if w.in_dispatch else 'MainThread'}))
+    st = {'flag': False, 'waits': 0, 'outcome': []}
+
+    def wait(_i, a, k):
+        st['waits'] += 1
+        return st['flag']
+
+    def set_(*_a):
+        st['flag'] = True
+        return None
+
+    def clear(*_a):
+        st['flag'] = False
+        return None
+    c.set(param, '_initialized', c.ext('initialized', returns={'wait': wait, 'set': set_, 'clear': clear, 'is_set': lambda *_a: st['flag']}))
+
+    def in_connected_callback(*_a):
+        st['outcome'].append(c.invoke_catch((param, op), *args))
+        st['outcome'].append(st['waits'])
+        return None
+    c.invoke((c.getfield(w.cf, 'connected'), 'add_callback'), c.ext('app_connected', returns={'()': in_connected_callback}))
+    c.call((w.cf, 'open_link'), URI)
+    w.run_until_quiet(stop_after=7)
+    c.let('outcome', tuple(st['outcome']))
+    c.ensure('refused-at-once-on-the-dispatcher-thread', "outcome == ('Exception', 0)")
+    # the same call from an application thread, values still outstanding: it waits (and here times out)
+    c.call((param, op), *args)
+    c.let('waits', st['waits'])
+    c.ensure('another-thread-waits-for-the-values', "raised == 'Exception' and waits == 1")
+    w.run_until_quiet()
+    c.let('events', w.events())
+    c.ensure('sequence-completes', 'events == %r' % (FULL,))
+    c.call((w.cf, 'is_called_by_incoming_handler_thread'))
+    c.ensure('application-thread-is-not-the-dispatcher', 'result is False')
+    c.call((param, op), *args)
+    c.let('waits', st['waits'])
+    c.ensure('served-once-fully-connected', "raised is None and waits == 1")
+
+
+MEM = 'cflib.crazyflie.mem'
+
+
+def _mem_op_send_fault(op, thorough_only=False):
+    @contract('C02', 'link-error.from-the-sending-thread-during-memory-%s' % op,
+              SEND_F + [MEM + ':Memory.%s' % op, MEM + ':Memory._disconnected', MEM + ':Memory._call_all_failed_callbacks'], thorough_only=thorough_only,
+              clause='whenever the link driver reports an error - here from the sending thread, inside the transmission of a memory %s request - the '
+                     'library reaches the disconnected state without any thread deadlocking: the request fails (its failure callback), the '
+                     'notifications are those of a lost link, no lock stays taken and the same object connects again' % op,
+              bounded='after fully_connected; device with 1 parameter and 2 memories; one %s request of 4 bytes on the first memory' % op)
+    def k(c):
+        w = World(c, 1, n_mems=2)
+        c.set(w.cf, '_send_lock', c.lock('send_lock'))
+        mem = c.getfield(w.cf, 'mem')
+        c.set(mem, '_write_requests_lock', c.lock('write_requests_lock'))
+        c.call((w.cf, 'open_link'), URI)
+        w.run_until_quiet()
+        c.let('before', w.events())
+        c.require('before == %r' % (FULL,))
+        c.let('mem0', c.invoke((mem, 'get_mem'), 0))
+        c.ensure('memory-known', 'mem0 is not None and mem0.id == 0', cls='A')
+        failed = c.ext('app_failed')
+        c.invoke((c.getfield(mem, 'mem_%s_failed_cb' % op), 'add_callback'), failed)
+        w.send_fault = (w.n_sent, lambda: c.invoke((w.cf, '_link_error_cb'), 'RadioDriver: Could not send packet to copter'))
+        c.reset_trace()
+        if op == 'write':
+            c.call((mem, 'write'), c.get('mem0'), 0, [1, 2, 3, 4])
+        else:
+            c.call((mem, 'read'), c.get('mem0'), 0, 4)
+        c.let('fired', w.send_fault is None)
+        c.ensure('the-transmission-failed', 'fired', cls='A')
+        c.ensure('call-returns-no-deadlock', 'raised is None')
+        c.let('after', w.events())
+        c.ensure('lost-after-first-packet', "after == ('disconnected', 'connection_lost')")
+        c.ensure('request-reported-as-failed', "len(sent('app_failed')) == 1")
+        c.ensure('disconnected-state', 'cf.link is None and cf.state == 0 and not cf.is_connected()')
+        c.ensure('no-lock-left-behind', 'not cf._send_lock.locked() and not write_requests_lock.locked()')
+        c.reset_trace()
+        c.call((w.cf, 'open_link'), URI)
+        w.run_until_quiet()
+        c.let('again', w.events())
+        c.ensure('reconnect-complete-and-ordered', 'again == %r' % (FULL,))
+    return k
+
+
+_mem_op_send_fault('read')
+_mem_op_send_fault('write', thorough_only=True)
